@@ -279,6 +279,14 @@ def obligations(ctx, cfg):
            Handler(ctx, 'publisher', 'delete_topic', req_sub_only('DeleteTopicRequest', 'topic'), which='topic'),
            PublishHandler(ctx),
            ]
+    # "once a delete has returned, every later request observes it": the subscription actor unregisters the name before it answers,
+    # with its topic alive or already gone (the same obligation as C11.c)
+    from props.C11 import SubDelete, TopicHandlers
+    sd = SubDelete(ctx)
+    sd.id = 'C10.d-subscription-delete-unregisters'
+    th = TopicHandlers(ctx, 2)
+    th.id = 'C10.d-topic-delete-unregisters'
+    obs += [sd, th]
     from props.races import TopicNamespaceRace, SubscriptionNamespaceRace
     obs += [TopicNamespaceRace(ctx, ['create', 'create']), TopicNamespaceRace(ctx, ['create', 'delete']), TopicNamespaceRace(ctx, ['create', 'get']),
             SubscriptionNamespaceRace(ctx, ['create', 'create']), SubscriptionNamespaceRace(ctx, ['create', 'delete']),
